@@ -288,15 +288,22 @@ def r143(ctx, dists):
         if not carried:
             continue
         # fields reset by any _set_stream in the MRO
+        # fields certainly reset when a stream is assigned: on every normal path of obj._set_stream(..), super / self calls followed, to a
+        # constant or an empty container -- or dropped from the instance so that the class-level constant shows again
+        from ..statrules import must_effects
         reset = set()
-        for k in prog.mro(c):
-            kc = prog.classes.get(k)
-            if kc is not None and '_set_stream' in kc.methods:
-                for st in walk_shallow(kc.methods['_set_stream']):
-                    if isinstance(st, (ast.Assign, ast.AnnAssign)) and getattr(st, 'value', None) is not None and (
-                            isinstance(st.value, ast.Constant) or (isinstance(st.value, (ast.List, ast.Tuple, ast.Set)) and not st.value.elts)
-                            or (isinstance(st.value, ast.Dict) and not st.value.keys)):
-                        reset |= {t.attr for t in (st.targets if isinstance(st, ast.Assign) else [st.target]) if is_self_attr(t)}
+        for (k_, f_, n_) in must_effects(prog, c, '_set_stream'):
+            if k_ != 'set':
+                continue
+            v_ = getattr(n_, 'value', None)
+            if isinstance(n_, (ast.Assign, ast.AnnAssign)) and v_ is not None:
+                if isinstance(v_, ast.Constant) or (isinstance(v_, (ast.List, ast.Tuple, ast.Set)) and not v_.elts) or (isinstance(v_, ast.Dict) and not v_.keys):
+                    reset.add(f_)
+            else:
+                # removed from the instance: the value read next is the class-level default, which must be a constant
+                dflt = next((prog.classes[k2].assigns[f_] for k2 in prog.mro(c) if k2 in prog.classes and f_ in prog.classes[k2].assigns), None)
+                if dflt is None or isinstance(dflt, ast.Constant):
+                    reset.add(f_)
         for f in sorted(carried):
             n += 1
             ok = f in reset
